@@ -1,1 +1,2 @@
+pub mod net1;
 pub mod p2p;
